@@ -514,4 +514,63 @@ func init() {
 			}
 			c.Check(okC, "init-ack-cookie-first", c.P.Pos(hi.Pos()), "INIT-ACK params start with the state cookie", "INIT-ACK's first parameter is not the state cookie")
 		}})
+
+	register(&Rule{ID: "C12.R9", Props: []string{"C12", "C07"}, Engine: "E1",
+		Title:   "I-FORWARD-TSN normalisation merges only entries that agree on every wire field except the merged message identifier (the de-duplication key covers stream identifier and U flag), so decoding and re-encoding keeps ordered and unordered skips apart",
+		MinInst: 2,
+		Run: func(c *RuleCtx) {
+			fn := c.Fn("normalizeIForwardTSNStreams")
+			_, st := c.P.NamedStruct("chunkIForwardTSNStream")
+			if st == nil {
+				panic(unresolved{"struct chunkIForwardTSNStream"})
+			}
+			want := map[string]bool{}
+			for i := 0; i < st.NumFields(); i++ {
+				if n := st.Field(i).Name(); n != "messageIdentifier" {
+					want[n] = true
+				}
+			}
+			var keyFields map[string]bool
+			forEachInstr(fn, func(in ssa.Instruction) {
+				mm, ok := in.(*ssa.MakeMap)
+				if !ok {
+					return
+				}
+				mt := mm.Type().Underlying().(*types.Map)
+				keyFields = map[string]bool{}
+				if ks, ok := mt.Key().Underlying().(*types.Struct); ok {
+					for i := 0; i < ks.NumFields(); i++ {
+						keyFields[ks.Field(i).Name()] = true
+					}
+				} else {
+					keyFields["<"+mt.Key().String()+">"] = true
+				}
+			})
+			c.Check(keyFields != nil && fmt.Sprint(sortedKeys(keyFields)) == fmt.Sprint(sortedKeys(want)), "dedupe-key-fields", c.P.Pos(fn.Pos()),
+				fmt.Sprintf("de-duplication key = %v", sortedKeys(want)), fmt.Sprintf("de-duplication key is %v but entries differ on the wire by %v: distinct entries are merged", sortedKeys(keyFields), sortedKeys(want)))
+			// the key is filled from the entry's own fields
+			okFill := 0
+			forEachInstr(fn, func(in ssa.Instruction) {
+				st, ok := in.(*ssa.Store)
+				if !ok {
+					return
+				}
+				fa, ok := st.Addr.(*ssa.FieldAddr)
+				if !ok {
+					return
+				}
+				f := fieldOf(fa.X.Type(), fa.Field)
+				if f == nil || !want[f.Name()] {
+					return
+				}
+				if src, _ := loadedField(st.Val); src != nil && src.Name() == f.Name() {
+					okFill++
+				} else if fv, isF := st.Val.(*ssa.Field); isF {
+					if sf := fieldOf(fv.X.Type(), fv.Field); sf != nil && sf.Name() == f.Name() {
+						okFill++
+					}
+				}
+			})
+			c.Check(okFill >= len(want), "dedupe-key-filled", c.P.Pos(fn.Pos()), "each key field is copied from the same field of the entry", "key fields are not filled from the entry's own fields")
+		}})
 }
